@@ -18,6 +18,7 @@ package main
 //@ func (templates).makeTemplate
 //@   requires t != nil
 //@   ensures[C19] result == t$entry[templateText] || called("template.Must")
+//@   ensures[C19] an_uncached_text_is_parsed_and_yields_a_template: !old(has(t, templateText)) ==> called("(*template.Template).Parse") && result != nil
 //@   modifies mapof(t)
 //@   assert_call[C19] (*template.Template).Parse : parses_the_given_text: arg1 == templateText
 //
@@ -33,6 +34,12 @@ package main
 //@   assert_call[C19] (*gopoet.FuncSpec).RenderCode : bound_to_own_service_description: methodInfo.ServiceDesc == ite(args.legacyDescNames, legacy_desc_name(sd), exported_desc_name(sd))
 //@   assert_call[C19] (*gopoet.FuncSpec).RenderCode : bound_to_own_stream_index: methodInfo.StreamIndex == nstream(sd, rangeindex#2)
 //@   assert_call[C19] (templates).makeTemplate : call_shape_matches_the_streaming_flags: (md_cs(md) ==> lit_contains(arg1, "c.ch.NewStream(ctx, &{{.ServiceDesc}}.Streams[{{.StreamIndex}}], \"/{{.ServiceName}}/{{.MethodName}}\", opts...)") && !lit_contains(arg1, "SendMsg(") && !lit_contains(arg1, "CloseSend(") && !lit_contains(arg1, "Invoke(")) && (!md_cs(md) && md_ss(md) ==> lit_contains(arg1, "c.ch.NewStream(ctx, &{{.ServiceDesc}}.Streams[{{.StreamIndex}}], \"/{{.ServiceName}}/{{.MethodName}}\", opts...)") && lit_contains(arg1, "x.ClientStream.SendMsg(in)") && lit_contains(arg1, "x.ClientStream.CloseSend()") && !lit_contains(arg1, "Invoke(")) && (!md_cs(md) && !md_ss(md) ==> lit_contains(arg1, "c.ch.Invoke(ctx, \"/{{.ServiceName}}/{{.MethodName}}\", in, out, opts...)") && !lit_contains(arg1, "NewStream("))
+//@   loop loop#1 invariant[C19] every_method_is_rendered_and_added_every_service_registered: calls("(*gopoet.FuncSpec).RenderCode") == calls("(*desc.MethodDescriptor).IsClientStreaming") && calls("(*gopoet.GoFile).AddElement") == calls("(*gopoet.FuncSpec).RenderCode") + calls("(*gopoet.FuncSpec).Printlnf") && (!args.legacyStubs ==> calls("(*gopoet.FuncSpec).Printlnf") == rangeindex + 1 && !called("(*gopoet.FuncSpec).RenderCode")) && (args.legacyStubs ==> calls("(*gopoet.FuncSpec).Printlnf") == 2 * (rangeindex + 1))
+//@   loop loop#2 invariant[C19] every_method_so_far_is_rendered_and_added: calls("(*gopoet.FuncSpec).RenderCode") == calls("(*desc.MethodDescriptor).IsClientStreaming") && calls("(*gopoet.GoFile).AddElement") == calls("(*gopoet.FuncSpec).RenderCode") + calls("(*gopoet.FuncSpec).Printlnf") && args.legacyStubs && calls("(*gopoet.FuncSpec).Printlnf") == 2 * (rangeindex + 1)
+//@   assert_call[C19] (*gopoet.FuncSpec).SetVariadic : call_options_are_variadic: arg1
+//@   ensures[C19] a_file_with_services_is_written_once: len(lastresult("(*desc.FileDescriptor).GetServices")) > 0 ==> calls("gopoet.WriteGoFile") == 1 && result == lastresult("gopoet.WriteGoFile")
+//@   ensures[C19] a_file_without_services_emits_nothing: calls("(*desc.FileDescriptor).GetServices") >= 1 && !called("gopoet.WriteGoFile") ==> result == nil
+//@   assert_call[C19] gopoet.WriteGoFile : this_file_to_its_own_output: arg0 == lastresult("(*plugins.CodeGenResponse).OutputFile") && arg1 == f
 //@   loop loop#1 invariant[C19] one_rendering_per_template_use: calls("(*gopoet.FuncSpec).RenderCode") == calls("(templates).makeTemplate")
 //@   loop loop#2 invariant[C19] one_rendering_per_template_use: calls("(*gopoet.FuncSpec).RenderCode") == calls("(templates).makeTemplate")
 
@@ -51,7 +58,11 @@ package main
 // per-option assignment is not under a functional contract: see DESIGN.md.)
 //@ func parseArgs
 //@   loop loop#1 invariant[C19] import_map_is_this_calls_own: result.importMap == nil || fresh(result.importMap)
-//@   assert_call[C19] strings.SplitN : option_split_at_the_first_equals_sign: arg1 == "=" && arg2 == 2
+//@   assert_call[C19] strings.SplitN : option_split_at_the_first_equals_sign: arg1 == "=" && arg2 == 2 && arg0 == args[rangeindex]
+//@   loop loop#1 invariant[C19] a_string_option_just_processed_is_stored: rangeindex >= 0 ==> (split_head(args[rangeindex], "=") == "import_path" ==> result.importPath == split_tail(args[rangeindex], "=")) && (split_head(args[rangeindex], "=") == "module" ==> result.moduleRoot == split_tail(args[rangeindex], "="))
+//@   loop loop#1 invariant[C19] a_paths_option_just_processed_is_stored: rangeindex >= 0 && split_head(args[rangeindex], "=") == "paths" ==> (split_tail(args[rangeindex], "=") == "import" ==> !result.sourceRelative) && (split_tail(args[rangeindex], "=") == "source_relative" ==> result.sourceRelative)
+//@   loop loop#1 invariant[C19] a_boolean_option_just_processed_is_stored: rangeindex >= 0 ==> (split_head(args[rangeindex], "=") == "debug" ==> result.debug == lastresult(boolVal, 0)) && (split_head(args[rangeindex], "=") == "legacy_stubs" ==> result.legacyStubs == lastresult(boolVal, 0)) && (split_head(args[rangeindex], "=") == "legacy_desc_names" ==> result.legacyDescNames == lastresult(boolVal, 0))
+//@   loop loop#1 invariant[C19] an_import_mapping_just_processed_is_stored: rangeindex >= 0 && split_head(args[rangeindex], "=") != "debug" && split_head(args[rangeindex], "=") != "legacy_stubs" && split_head(args[rangeindex], "=") != "legacy_desc_names" && split_head(args[rangeindex], "=") != "import_path" && split_head(args[rangeindex], "=") != "module" && split_head(args[rangeindex], "=") != "paths" ==> len(split_head(args[rangeindex], "=")) > 1 && byteat(split_head(args[rangeindex], "="), 0) == 'M' && result.importMap != nil && has(result.importMap, substr(split_head(args[rangeindex], "="), 1, len(split_head(args[rangeindex], "=")))) && result.importMap[substr(split_head(args[rangeindex], "="), 1, len(split_head(args[rangeindex], "=")))] == split_tail(args[rangeindex], "=")
 //@   assert_call[C19] boolVal : of_the_split_option: arg0 == lastresult("strings.SplitN")
 //@   ensures[C19] module_root_and_source_relative_are_exclusive: result1 == nil ==> !(result0.sourceRelative && result0.moduleRoot != "")
 
@@ -60,5 +71,14 @@ package main
 //@ func doCodeGen
 //@   assert_call[C19] parseArgs : of_the_requests_parameter: arg0 == req.Args
 //@   ensures[C19] option_error_generates_nothing: lastresult(parseArgs, 1) != nil ==> result == lastresult(parseArgs, 1) && !called(generateChanStubs)
+//@   loop loop#2 invariant[C19] generation_continues_only_while_it_succeeds: called(generateChanStubs) ==> lastresult(generateChanStubs) == nil
+//@   ensures[C19] success_means_every_file_was_generated_without_error: result == nil ==> lastresult(parseArgs, 1) == nil && (called(generateChanStubs) ==> lastresult(generateChanStubs) == nil)
+//@   ensures[C19] failure_has_a_cause: result != nil ==> lastresult(parseArgs, 1) != nil || (called(generateChanStubs) && lastresult(generateChanStubs) != nil)
+//@   assert_call[C19] (*plugins.GoNames).GoPackageForFileWithOverride : import_path_override_only_for_unmapped_files: arg2 == lastresult(parseArgs, 0).importPath && arg2 != ""
 //@   assert_call[C19] generateChanStubs : each_file_with_the_parsed_options: arg1 == &names && arg2 == resp && arg3 == lastresult(parseArgs, 0) && lastresult(parseArgs, 1) == nil
+//@   modifies everything
+
+//@ func main
+//@   ensures[C19] runs_the_plugin_with_this_generator: calls("plugins.PluginMain") == 1
+//@   assert_call[C19] plugins.PluginMain : isfunc(arg0, "doCodeGen")
 //@   modifies everything
